@@ -502,6 +502,20 @@ def expected_global(items, labels):
     return out
 
 
+def both_nan(exp, have, i):
+    """byte i lies in an aligned 4 or 8 byte cell that holds a NaN on both sides: WebAssembly leaves
+    sign and payload of a computed NaN open, so those bits are not compared"""
+    for size, fmt in ((8, "<d"), (4, "<f")):
+        start = i - i % size
+        cell = exp[start:start + size]
+        if len(cell) == size and None not in cell and start + size <= len(have):
+            a = struct.unpack(fmt, bytes(cell))[0]
+            b = struct.unpack(fmt, bytes(have[start:start + size]))[0]
+            if a != a and b != b:
+                return True
+    return False
+
+
 def prepare_module(module, argv, mon, case, kind, replay=None, reducible_required=True):
     """Translate one module, run the reference, queue a V8 job.  argv: {fname: [vec...]}"""
     from ppci import ir
@@ -585,7 +599,7 @@ def prepare_module(module, argv, mon, case, kind, replay=None, reducible_require
                     norm.append([int(t[1:]), t[0] == "i"])
             imports.append({"module": "js", "name": e.name, "kind": "func",
                             "ext": {"params": [WASM_TY[t] for t in ptys], "norm": norm,
-                                    "ret": WASM_TY[ret] if ret else None}})
+                                    "ret": WASM_TY[ret] if ret else None, "retzero": ret == "ptr"}})
     job = {"id": "m%d" % len(mon.pending), "wasm": data, "imports": imports, "mode": "run", "fresh": True,
            "memory": "memory", "memdump": [[labels[n], sz] for n, sz in variables],
            "calls": [{"f": r["f"], "args": [arg_text(t, v) for t, v in zip(r["ptys"], r["vec"])],
@@ -671,6 +685,7 @@ def judge(mon, p, res):
                 exp = expected_global(ref.globals[name], labels)
                 have = bytes.fromhex(hx)
                 bad = [i for i, e in enumerate(exp) if e is not None and i < len(have) and have[i] != e]
+                bad = [i for i in bad if not both_nan(exp, have, i)]
                 if len(have) != len(exp):
                     bad = [0]
                 mon.obs["globals_compared"] += 1
@@ -933,6 +948,9 @@ def part_matrix(spec, mon):
                         v = -v
                 if ty.bits == 32:
                     v = struct.unpack("<f", struct.pack("<f", v))[0]
+            if not isf and dn == "f32" and abs(v) >= 1 << 53:
+                # refinterp converts through a double: keep the value exact there (single rounding)
+                v = (abs(v) >> 12 << 12) * (1 if v > 0 else -1)
             vecs.append([v])
         argv[f.name] = vecs
         mon.count("matrix_ops", "cast", len(vecs))
